@@ -121,65 +121,23 @@ Proof.
     rewrite X by (rewrite ready_with_st; auto). reflexivity.
 Qed.
 
-(** the parent loop of RenameMailboxPerUser aborts on an empty component *)
-Definition rename_parents (s : store) (ps : list str) (t : Z) : store * bool :=
-  fold_left (fun '(s', ok) p =>
-               if negb ok then (s', ok) else
-               match find_name s' p with
-               | Some _ => (s', true)
-               | None => match create_mailbox_row s' p t with
-                         | Some (s'', _) => (s'', true)
-                         | None => (s', match p with [] => false | _ => true end)
-                         end
-               end) ps (s, true).
+Lemma ready_file_schema d : ready d = true -> d_file d && (1 <=? d_schema d)%nat = true.
+Proof.
+  unfold ready. intros Hr. apply andb_true_iff in Hr. destruct Hr as [Hf Hs]. rewrite Hf.
+  apply Nat.leb_le in Hs. unfold NTABLES in Hs. cbn [andb]. apply Nat.leb_le. lia.
+Qed.
 
 (** ---- all base operations ------------------------------------------------------------ *)
 
-(** RENAME whose new name has an empty hierarchy component ("/x", "a//b") is
-    outside this lemma (the Go loop aborts there; the micro list does not
-    model the abort) *)
-Definition rename_plain (o : op) : bool :=
-  match o with
-  | ORename _ new _ => negb (existsb (fun p => match p with [] => true | _ => false end)
-                                     (if contains_byte new SLASH then parent_paths new else []))
-  | _ => true
-  end.
-
-Lemma create_row_none_empty s p t :
-  find_name s p = None -> create_mailbox_row s p t = None -> p = [].
-Proof.
-  unfold create_mailbox_row. destruct p; [reflexivity|]. intros ->. discriminate.
-Qed.
-
-Lemma rename_parents_plain ps t : forall s,
-  existsb (fun p : str => match p with [] => true | _ => false end) ps = false ->
-  fold_left (fun '(s', ok) p =>
-               if negb ok then (s', ok) else
-               match find_name s' p with
-               | Some _ => (s', true)
-               | None => match create_mailbox_row s' p t with
-                         | Some (s'', _) => (s'', true)
-                         | None => (s', match p with [] => false | _ => true end)
-                         end
-               end) ps (s, true) = (after_parents s ps t, true).
-Proof.
-  induction ps as [|p r IH]; intros s H; [reflexivity|].
-  simpl in H. apply orb_false_iff in H. destruct H as [Hp Hr].
-  unfold after_parents. cbn [fold_left negb].
-  destruct (find_name s p) eqn:F; [apply IH; auto|].
-  destruct (create_mailbox_row s p t) as [[s'' i]|] eqn:Cr; [apply IH; auto|].
-  apply create_row_none_empty in Cr; auto. subst p. discriminate.
-Qed.
-
 Lemma base_refines d o :
-  ready d = true -> base_ok o = true -> rename_plain o = true ->
+  ready d = true -> base_ok o = true ->
   NoDup (map lk_id (links (d_st d))) ->
-  run_steps d (base_steps (d_st d) o) = with_st d (fst (step (d_st d) o)).
+  run_steps d (base_steps (d_st d) o) = with_st d (fst (step7 (d_st d) o)).
 Proof.
-  intros Hr Hb Hp N. set (s := d_st d).
+  intros Hr Hb N. set (s := d_st d).
   assert (Hid : d = with_st d s) by (symmetry; apply with_st_id).
   destruct o as [f t|f fl|sel set dest|sel set dest|sel set mode fl|sel|sel|n t|n|a b t];
-    try discriminate; cbn [base_steps step].
+    try discriminate; cbn [base_steps step7 step].
   - (* uid copy *)
     unfold op_uidcopy. fold s. destruct (resolve_uids s sel set) as [|u us]; [exact Hid|].
     destruct (find_name s dest) as [dm|]; [|exact Hid].
@@ -194,21 +152,12 @@ Proof.
   - (* expunge *) unfold op_expunge. cbn [fst]. now apply expunge_refines.
   - (* close *) unfold op_close, op_expunge. cbn [fst]. now apply expunge_refines.
   - (* create *)
-    unfold op_create. fold s. destruct (trim_suffix n [SLASH]) as [|c r] eqn:En; [exact Hid|].
+    unfold op_create7. fold s. destruct (trim_suffix n [SLASH]) as [|c r] eqn:En; [exact Hid|].
     set (name := c :: r) in *.
     destruct (str_eqb (to_upper name) INBOX); [exact Hid|].
     destruct (find_name s name); [exact Hid|].
     rewrite run_steps_app. unfold s. rewrite parents_refines by auto. fold s.
-    assert (Ea : after_parents s (if contains_byte name SLASH then parent_paths name else []) t
-                 = (if contains_byte name SLASH
-                    then fold_left (fun s' p => match find_name s' p with
-                                                | Some _ => s'
-                                                | None => match create_mailbox_row s' p t with
-                                                          | Some (s'', _) => s'' | None => s' end
-                                                end) (parent_paths name) s
-                    else s)).
-    { destruct (contains_byte name SLASH); reflexivity. }
-    rewrite Ea. set (s1 := if contains_byte name SLASH then _ else s).
+    set (s1 := after_parents s (parents_of name) t).
     destruct (create_mailbox_row s1 name t) as [[s2 i]|] eqn:Cr; [|reflexivity].
     unfold run_steps. cbn [fold_left]. rewrite exec_ins_mailbox by (rewrite ready_with_st; auto).
     cbn [d_st with_st]. rewrite Cr. reflexivity.
@@ -219,35 +168,23 @@ Proof.
     destruct (children s name); [|exact Hid].
     destruct (existsb _ _); [exact Hid|]. reflexivity.
   - (* rename *)
-    unfold op_rename. fold s.
+    unfold op_rename7. fold s.
     destruct a as [|ca ra]; [exact Hid|]. destruct b as [|cb rb]; [exact Hid|].
     set (a := ca :: ra) in *. set (b := cb :: rb) in *.
     destruct (str_eqb (to_upper b) INBOX); [exact Hid|].
     destruct (str_eqb (to_upper a) INBOX).
-    + unfold rename_inbox. destruct (find_name s b); [exact Hid|].
+    + (* RENAME INBOX: parents and the new row autocommit, then one transaction *)
+      unfold rename_inbox7. destruct (find_name s b); [exact Hid|].
       destruct (find_name s INBOX) as [ib|]; [|exact Hid].
-      destruct (create_mailbox_row s b t) as [[s1 nid]|] eqn:Cr; [|exact Hid].
-      unfold run_steps. cbn [fold_left]. rewrite exec_ins_mailbox by auto. fold s. rewrite Cr.
-      cbn [option_map fst opt_st exec d_st with_st].
-      destruct (reparent (set_next s1 nid (mb_next ib)) (mb_id ib) nid); reflexivity.
-    + destruct (find_name s a) as [m|]; [|exact Hid].
-      destruct (find_name s b); [exact Hid|].
-      cbn [rename_plain] in Hp. apply negb_true_iff in Hp.
       rewrite run_steps_app. unfold s. rewrite parents_refines by auto. fold s.
-      set (ps := if contains_byte b SLASH then parent_paths b else []) in *.
-      assert (E : (if contains_byte b SLASH
-                   then fold_left (fun '(s', ok) p =>
-                          if negb ok then (s', ok) else
-                          match find_name s' p with
-                          | Some _ => (s', true)
-                          | None => match create_mailbox_row s' p t with
-                                    | Some (s'', _) => (s'', true)
-                                    | None => (s', match p with [] => false | _ => true end)
-                                    end
-                          end) (parent_paths b) (s, true)
-                   else (s, true)) = (after_parents s ps t, true)).
-      { unfold ps in *. destruct (contains_byte b SLASH); [|reflexivity].
-        now apply rename_parents_plain. }
-      rewrite E. cbn [negb]. unfold run_steps. cbn [fold_left exec d_st with_st].
-      destruct (rename_tx (after_parents s ps t) (mb_id m) a b); reflexivity.
+      set (s0 := after_parents s (parents_of b) t).
+      destruct (create_mailbox_row s0 b t) as [[s1 nid]|] eqn:Cr; [|reflexivity].
+      unfold run_steps. cbn [fold_left]. rewrite exec_ins_mailbox by (rewrite ready_with_st; auto).
+      cbn [d_st with_st]. rewrite Cr. cbn [option_map fst opt_st exec d_st with_st].
+      destruct (reparent (set_next s1 nid (mb_next ib)) (mb_id ib) nid); reflexivity.
+    + (* RENAME: one transaction, parents included *)
+      destruct (find_name s a) as [m|]; [|exact Hid].
+      destruct (find_name s b); [exact Hid|].
+      unfold run_steps. cbn [fold_left exec]. rewrite (ready_file_schema d Hr). fold s.
+      destruct (rename_tx7 s (mb_id m) a b (parents_of b) t); [reflexivity|exact Hid].
 Qed.
